@@ -38,13 +38,23 @@ NOTE = ("Directed programs every batch: 18 group layouts (member full / closed-u
 TECHNIQUE = "TLA+ model (TLC safety + liveness) + trace validation of recorded histories with contract oracle"
 DESIGN_REF = "3/C19"
 
-QUICK_CFGS = ["MC_Actor.cfg", "MC_Actor_call.cfg", "MC_Actor_fail.cfg", "MC_Actor_registry.cfg", "MC_Actor_sup.cfg",
+QUICK_CFGS = ["MC_Actor.cfg", "MC_Actor_fail.cfg", "MC_Actor_registry.cfg", "MC_Actor_sup.cfg",
               "MC_Actor_group.cfg", "MC_Actor_group_join.cfg", "MC_Actor_live.cfg"]
 THOROUGH_CFGS = ["MC_Actor_thorough.cfg", "MC_Actor_call.cfg", "MC_Actor_fail_thorough.cfg", "MC_Actor_registry_thorough.cfg",
                  "MC_Actor_sup.cfg", "MC_Actor_group_thorough.cfg", "MC_Actor_group_join.cfg", "MC_Actor_live.cfg",
                  "MC_Actor_call_fixed.cfg", "MC_Actor_call_live_thorough.cfg", "MC_Actor_fail_live_thorough.cfg"]
 # actions of the model that only occur in recorded traces (observations), never in the bounded Next
 TRACE_ONLY = {"CallHangs", "ExitObs"}
+# serial collector + C1 only: the runs are short, so JVM start-up, GC threads and JIT dominate on a shared machine
+JVM_FAST = ["-XX:+UseSerialGC", "-XX:-UseParallelGC", "-XX:TieredStopAtLevel=1"]
+
+
+def validate_trace(path, timeout):
+    """vlib.validate_trace with the cheaper JVM flags (same TRACE / StateDeque / -Xss1g / workers 1 protocol)."""
+    env = {"TRACE": os.path.abspath(path), "JAVA_TOOL_OPTIONS": "-Xss1g -Dtlc2.tool.queue.IStateQueue=StateDeque"}
+    r = vlib.tlc("Trace_Actor", "Trace_Actor.cfg", workers=1, timeout=timeout, coverage=False, env=env,
+                 jvm=["-Xmx4g"] + JVM_FAST, marker="TRACE")
+    return ("TRACE_ACCEPTED" in r.out) and r.violated is None and r.error is None, r
 
 
 # ---------------------------------------------------------------------------------------------------
@@ -452,7 +462,7 @@ def validate_runs(tmp, tag, runs, timeout):
         rounds += 1
         path = os.path.join(tmp, "%s_%d.ndjson" % (tag, rounds))
         write_runs(path, runs[base:])
-        ok, r = vlib.validate_trace("Trace_Actor", "Trace_Actor.cfg", path, timeout=timeout)
+        ok, r = validate_trace(path, timeout)
         os.unlink(path)
         if ok:
             break
@@ -483,12 +493,13 @@ def model_check(run, tier):
     cover = {}
 
     def one(cfg):
-        return cfg, vlib.tlc("Actor", cfg, workers=1 if tier == "quick" else 2, timeout=1700)
+        return cfg, vlib.tlc("Actor", cfg, workers=1 if tier == "quick" else 2, timeout=1700,
+                             jvm=JVM_FAST if tier == "quick" else JVM_FAST[:2])
 
-    with concurrent.futures.ThreadPoolExecutor(max_workers=4 if tier == "quick" else 2) as ex:
+    with concurrent.futures.ThreadPoolExecutor(max_workers=9 if tier == "quick" else 2) as ex:
         sany = ex.submit(vlib.sany, "Trace_Actor")     # EXTENDS Actor: parses and checks both modules
         futs = [ex.submit(one, c) for c in cfgs]
-        strict = ex.submit(lambda: vlib.tlc("Actor", "MC_Actor_call_strict.cfg", workers=1, timeout=600, coverage=False))
+        strict = ex.submit(lambda: vlib.tlc("Actor", "MC_Actor_call_strict.cfg", workers=1, timeout=600, coverage=False, jvm=JVM_FAST))
         for f in futs:
             cfg, r = f.result()
             vlib.require_model_ok(r, "Actor/" + cfg)
@@ -502,7 +513,7 @@ def model_check(run, tier):
         sany.result()
         rc = None
         if tier != "quick":
-            rc = ex.submit(lambda: vlib.tlc("Actor", "MC_Actor_registry_ctl.cfg", workers=1, timeout=600, coverage=False)).result()
+            rc = ex.submit(lambda: vlib.tlc("Actor", "MC_Actor_registry_ctl.cfg", workers=1, timeout=600, coverage=False, jvm=JVM_FAST)).result()
     # the repaired close (DrainOnClose) is only exercised by MC_Actor_call_fixed.cfg, which runs in the thorough tier
     skip = TRACE_ONLY | ({"CloseRxDrains"} if tier == "quick" else set())
     zero = sorted(a for a, (d, t) in cover.items() if t == 0 and a not in skip)
@@ -569,11 +580,11 @@ def judge(run, tmp, tag, runs, programs, summary, problems, timeout):
                 run.report({"site": site, "pred": pred}, "run %s: %s" % (rid, desc),
                            {"program": prog, "history": r})
     # trace validation, in parallel halves
-    nchunks = 2 if len(runs) > 40 else 1
+    nchunks = 3 if len(runs) > 40 else 1
     step = (len(runs) + nchunks - 1) // nchunks
     chunks = [(k, runs[k:k + step]) for k in range(0, len(runs), step)]
     rejected = []
-    with concurrent.futures.ThreadPoolExecutor(max_workers=2) as ex:
+    with concurrent.futures.ThreadPoolExecutor(max_workers=3) as ex:
         futs = [(k, ex.submit(validate_runs, tmp, "%s_c%d" % (tag, k), ch, timeout)) for (k, ch) in chunks]
         for k, f in futs:
             rejected += [(k + idx, at) for (idx, at) in f.result()]
@@ -664,7 +675,7 @@ def run(run, tier, replay):
         # 2. record histories from the real crate
         vlib.cargo_build("hactor", ["record_actor"])
         vlib.log("  harness built after %.0fs" % (time.time() - t0))
-        batches = [(vlib.seed(), 100)] if tier == "quick" else [(vlib.seed() * 100 + k, 240) for k in range(5)]
+        batches = [(vlib.seed(), 72)] if tier == "quick" else [(vlib.seed() * 100 + k, 240) for k in range(5)]
         total_runs = total_events = 0
         all_drift = []
         parked = 0
